@@ -484,6 +484,20 @@ def run(ctx):
     check_region_table(ctx, "C01.TABLE", it, statements_mentioning({"bysetpos", "poslist"}),
                        "BYSETPOS selects the pos-th (from the end for negative pos) of the period's day x time candidates, skipping positions that do not exist",
                        "_iter: BYSETPOS selection")
+    # the BYxxx normalisation blocks of rrule.__init__: each is the top-level `if <byxxx> is (not) None` of the constructor
+    def by_block(param):
+        def pick(fnode):
+            out = []
+            for st in fnode.body:
+                if isinstance(st, ast.If) and isinstance(st.test, ast.Compare) and len(st.test.ops) == 1 and isinstance(st.test.ops[0], (ast.Is, ast.IsNot)) \
+                        and isinstance(st.test.left, ast.Name) and st.test.left.id == param and isinstance(st.test.comparators[0], ast.Constant) \
+                        and st.test.comparators[0].value is None:
+                    out.append(st)
+            return out
+        return pick
+    for by_ in ("bymonth", "byyearday", "byeaster", "bymonthday", "byweekno", "byhour", "byminute", "bysecond"):
+        check_region_table(ctx, "C01.TABLE", init, by_block(by_), "the %s argument becomes the sorted tuple of its distinct members (a single integer a one-element tuple) "
+                           "and is recorded for replace() / str(); no member is dropped or altered" % by_, "__init__: %s block" % by_)
     from ..rules_common import check_presence_tests, ARG_SCOPE
     check_presence_tests(ctx, "C01.PRESENCE", classes=ARG_SCOPE.get("C01", []))
     from ..rules_common import check_param_rebinding
